@@ -1,8 +1,9 @@
 (** Case format of the TYPED correspondence run (C01): the complete model - class table regenerated from /repo, generic
     construct / from_etree / to_etree, and the Scalars engine's converters for Bool, String, NagString, OneOf, Integer, Decimal -
-    against the implementation, on real documents and real values (no converter tables except for date-times / times, whose
-    arithmetic is C09's engine: they enter as (text <-> instant) pairs filled by the real DateTime / Time converters). *)
-From OfxV Require Import Base.Prelude Model.Schema Model.Convert Model.Scalars Model.Typed Model.ValidB Model.ConvertCases.
+    against the implementation, on real documents and real values.  TFrom / TTo: no converter tables except for date-times / times,
+    which enter as (text <-> instant) pairs filled by the real DateTime / Time converters; TFromM / TToM: no tables at all on the
+    reading side - date-times go through the C09 engine (Model/DateTimeM.v via Model/TypedDT.v). *)
+From OfxV Require Import Base.Prelude Model.Schema Model.Convert Model.Scalars Model.Typed Model.TypedDT Model.ValidB Model.ConvertCases Gen.DateTimeGen.
 Local Open Scope string_scope.
 
 Definition dt_table := list (bool * text * result (option pyval)).          (* is_time, text, outcome of convert *)
@@ -18,10 +19,22 @@ Fixpoint dunconv (tb : udt_table) (is_time : bool) (v : pyval) : result text :=
   | (b, x, r) :: rest => if (Bool.eqb b is_time && pyval_eqb x v)%bool then r else dunconv rest is_time v
   end.
 
+(** the C09 engine's writer for values whose tzinfo is UTC; the table only for values in other zones (an instant does not say
+    which zone it was given in, the text does) *)
+Fixpoint dunconv_utc (tb : udt_table) (is_time : bool) (v : pyval) : result text :=
+  match tb with
+  | [] => unconv_dt_utc is_time v
+  | (b, x, r) :: rest => if (Bool.eqb b is_time && pyval_eqb x v)%bool then r else dunconv_utc rest is_time v
+  end.
+
 Notation pinst := (inst pyval).
 Inductive tcase :=
 | TFrom (tb : dt_table) (e : etree) (exp : result (pinst * list string))
-| TTo (tb : udt_table) (i : pinst) (exp : result etree).
+| TTo (tb : udt_table) (i : pinst) (exp : result etree)
+(** the same with NO date-time table on the reading side: Types.DateTime / Types.Time as the C09 engine models them over the
+    regenerated digit and zone tables (Model/TypedDT.v); on the writing side the engine's writer for every UTC value *)
+| TFromM (e : etree) (exp : result (pinst * list string))
+| TToM (tb : udt_table) (i : pinst) (exp : result etree).
 
 Definition tcase_ok (table : list (N * ety)) (S : schema) (c : tcase) : bool :=
   match c with
@@ -29,4 +42,8 @@ Definition tcase_ok (table : list (N * ety)) (S : schema) (c : tcase) : bool :=
     result_eqb false (fun x y => ginst_eqb pyval pyval_eqb (fst x) (fst y) && strs_eqb (snd x) (snd y))
                (from_etree pyval (conv_typed table (dconv tb)) S e) exp
   | TTo tb i exp => result_eqb false etree_eqb (to_etree pyval (unconv_typed table (dunconv tb)) S i) exp
+  | TFromM e exp =>
+    result_eqb false (fun x y => ginst_eqb pyval pyval_eqb (fst x) (fst y) && strs_eqb (snd x) (snd y))
+               (from_etree pyval (conv_typed table (conv_dt_m nd_zeros tzs)) S e) exp
+  | TToM tb i exp => result_eqb false etree_eqb (to_etree pyval (unconv_typed table (dunconv_utc tb)) S i) exp
   end.
